@@ -267,7 +267,7 @@ func transformOptions(p *Opts) api.TransformOptions {
 }
 
 func execBuild(c *Case, o *Outcome) {
-	dir, err := os.MkdirTemp("", "verif-c16-")
+	dir, err := os.MkdirTemp(os.Getenv("C16_TMP"), "verif-c16-")
 	if err != nil {
 		o.Status = "died"
 		o.Stderr = err.Error()
